@@ -15,6 +15,9 @@ type compileContext struct {
 	escapeKey         bool
 	structTypeToCodes map[uintptr]Opcodes
 	recursiveCodes    *Opcodes
+	// the struct code a recursive opcode refers to, for programs that do not contain the whole
+	// struct themselves (programs cut down by a field query)
+	recursiveTargets map[*Opcode]*StructCode
 }
 
 func (c *compileContext) incIndent() {
